@@ -181,6 +181,9 @@ func ParseField(v reflect.Value, bytes []byte, params fieldParameters) error {
 		structType := fieldType
 		var structParams []fieldParameters
 
+		if structType.NumField() == 0 {
+			return fmt.Errorf("ber: cannot unmarshal into a struct without members")
+		}
 		if structType.Field(0).Name == "Value" {
 			// Non struct type
 			// fmt.Println("Non struct type")
